@@ -57,15 +57,15 @@ Proof. exact impl_eq_ref. Qed.
 Print Assumptions C07_impl_eq_ref.
 
 (* (4') the guard is closed under contexts: plugging a lexically scoped form into any nesting of the
-   fourteen frame kinds whose side forms are lexically scoped gives a lexically scoped form.  (Before the
+   sixteen frame kinds whose side forms are lexically scoped gives a lexically scoped form.  (Before the
    repairs no frame but let / block / unwind-protect / the last position of a body admitted an exit.) *)
 Theorem C07_guard_closed_under_contexts : forall E R G x, side_ok E R G = true -> compound x = true ->
   gd (bl_in E R) (tg_in E G) x = true -> gd R G (plug E x) = true.
 Proof. exact gd_plug. Qed.
 Print Assumptions C07_guard_closed_under_contexts.
 
-(* (5) Exits travel through arbitrary nestings (reference).  E is any list of frames -- progn, when, let,
-   argument position, block, unwind-protect, ignore-errors, recover, with-mutex-lock, with-open-file,
+(* (5) Exits travel through arbitrary nestings (reference).  E is any list of frames -- progn, when, unless,
+   if, let, argument position, block, unwind-protect, ignore-errors, recover, with-mutex-lock, with-open-file,
    lambda call, tagbody, dolist/dotimes, do -- none of which is the target of the exit or a handler for it
    (transp).  An exit raised in the hole comes out of E unchanged, and the state is exactly: what entering
    the frames did, then `leave`: for each frame from the innermost to the outermost, its cleanup forms /
@@ -103,7 +103,7 @@ Proof. exact M_return_reaches_block. Qed.
 Print Assumptions C07_impl_return_from_reaches_its_block.
 
 (* (6'') ... and with the guard discharged: in the model of the Go code a return-from crosses ANY context E
-   of the fourteen frame kinds (hole at any position) to its block, which yields the value, having run
+   of the sixteen frame kinds (hole at any position) to its block, which yields the value, having run
    exactly the cleanups of E innermost first and nothing after the exit; the only hypotheses left are that
    the forms standing next to the hole, the rest of the block and the user functions are lexically scoped,
    that no frame of E is a block of the same name / a nil-block loop for (return) (transp: otherwise that
@@ -173,7 +173,7 @@ Proof. exact M_error_through_any_context. Qed.
 Print Assumptions C07_impl_error_crosses_any_context.
 
 (* (9) non-vacuity: a five-level program with a user function inside the guard, the exit in the middle of
-   a when body, its value and trace; a fifteen-frame context containing every frame kind, with forms after
+   a when body, its value and trace; a seventeen-frame context containing every frame kind, with forms after
    the hole in every body, satisfying the hypotheses of (5)-(8) for a return and a go (and, cut before its
    handlers, for an error). *)
 Theorem C07_guard_nonvacuous :
